@@ -34,6 +34,8 @@ structure Env.Lawful (env : Env) : Prop where
   verify_cksum : ∀ d, env.verify d (env.cksum d) = true
   decomp_comp : ∀ b, env.decomp (env.comp b) = some b
   dec_enc : ∀ i b, env.dec (env.enc i b) = some b
+  /-- the IV (`aes.BlockSize` bytes) is appended to every encrypted block -/
+  enc_len : ∀ i b, 16 ≤ (env.enc i b).length
 
 /-- `table.Options`, the fields that matter. `chkMode`: 0 NoVerification, 1 OnTableRead,
     2 OnBlockRead, 3 OnTableAndBlockRead. -/
@@ -336,6 +338,26 @@ def TIter.apiRewind (env : Env) (t : TableCore) (it : TIter) : Option TIter :=
 /-- `Iterator.Seek` -/
 def TIter.apiSeek (env : Env) (t : TableCore) (it : TIter) (key : Bytes) : Option TIter :=
   if !it.reversed then it.seek env t key else it.seekForPrev env t key
+
+/-- `for ; it.Valid(); step(it)` collecting the decoded entries (`Key()`, `Value()`), at most
+    `fuel` of them. `none` = a panic (in `step` or in `ValueStruct.Decode`). -/
+def TIter.scan (step : TIter → Option TIter) : Nat → TIter → Option (List Entry)
+  | 0, _ => some []
+  | fuel + 1, it =>
+    if it.valid then
+      (decodeVS it.val).bind fun v =>
+      (step it).bind fun it' =>
+      (TIter.scan step fuel it').bind fun rest => some (⟨it.key, v⟩ :: rest)
+    else some []
+
+/-- `it := t.NewIterator(opt); for it.Rewind(); it.Valid(); it.Next() { … }` -/
+def TableCore.entries (env : Env) (t : TableCore) (reversed : Bool) (fuel : Nat) : Option (List Entry) :=
+  (({ reversed := reversed } : TIter).apiRewind env t).bind
+    (TIter.scan (fun it => it.apiNext env t) fuel)
+
+/-- The entry under the iterator (`Key()`, `Value()`), `none` when it is not valid. -/
+def TIter.entry? (it : TIter) : Option Entry :=
+  if it.valid then (decodeVS it.val).map fun v => ⟨it.key, v⟩ else none
 
 /-! ## `OpenTable` / `OpenInMemoryTable` -/
 
